@@ -35,13 +35,8 @@ sys.setrecursionlimit(max(sys.getrecursionlimit(), 60000))      # generated tree
 CORPUS = os.path.join(lib.VERIF, "corpus", "C01")
 SCHEMA_V = os.path.join(lib.COQ, "Gen", "YangSchema.v")
 HARNESS = os.path.join(lib.HGO, "harness")
-MEM_KB = 6 * 1024 * 1024          # ulimit -v of every harness child
-CHUNK_TIMEOUT = 45                # seconds, one chunk of cases
-SINGLE_TIMEOUT = 20               # seconds, one case alone
-CONFIRM_TIMEOUT = 90              # seconds, a case that timed out alone is run once more, machine quiet
 STACK_MB = 256                    # Go stack limit of the fuzzing children (the runtime's default is 1 GB)
-CMD = ["bash", "-c", "ulimit -v %d; export VERIF_MAXSTACK_MB=%d; exec %s run" % (MEM_KB, STACK_MB, HARNESS)]
-CMD_DEFAULT_STACK = ["bash", "-c", "ulimit -v %d; exec %s run" % (MEM_KB, HARNESS)]
+BAD = ("panic", "fatal", "timeout", "broken")
 
 
 def hx(s):
@@ -258,37 +253,112 @@ class Table:
 
 PSEUDO = ["Name", "Statement", "Parent", "Ext"]
 
-# ------------------------------------------------------------------ running, splitting, classifying
+# ------------------------------------------------------------------ running: bounded, exact about the offender
+
+STALL_S = 15             # a child that answers no case for this long is killed; the case it was on is the suspect
+CONFIRM_STALL_S = 45     # a suspect is run once more alone with this bound before it counts as a hang
+CHILD_AS = int(2.5 * (1 << 30))       # address space of an ordinary child (16 of them fit into memory)
+MAX_RESTARTS = 3         # per chunk: after a child died or stalled the rest of the chunk goes to a fresh child
+WITNESSES = 2            # confirmed witnesses wanted per failure signature; further cases are only counted
+BUDGET = dict(quick=150, thorough=1500)
+
+
+def child_env(stack_mb=STACK_MB):
+    e = dict(os.environ)
+    if stack_mb:
+        e["VERIF_MAXSTACK_MB"] = str(stack_mb)
+    else:
+        e.pop("VERIF_MAXSTACK_MB", None)
+    return e
+
+
+def limit_as(nbytes):
+    def f():
+        import resource
+        try:
+            resource.setrlimit(resource.RLIMIT_AS, (nbytes, nbytes))
+        except Exception:
+            pass
+    return f
+
+
+def run_child(lines, cwd, stall=STALL_S, as_bytes=CHILD_AS, stack_mb=STACK_MB, total=None):
+    """one harness child ("c01run": output flushed after every case) on the given cases.
+    -> (answers so far, why, stderr): why is None when every case was answered, else 'stall' | 'died';
+    the case the child was working on is lines[len(answers)]."""
+    import selectors
+    import threading
+    data = ("\n".join(lines) + "\n").encode()
+    errf = tempfile.TemporaryFile()
+    p = subprocess.Popen([HARNESS, "c01run"], stdin=subprocess.PIPE, stdout=subprocess.PIPE, stderr=errf, cwd=cwd,
+                         env=child_env(stack_mb), preexec_fn=limit_as(as_bytes))
+
+    def feed():
+        try:
+            p.stdin.write(data)
+            p.stdin.close()
+        except Exception:
+            pass
+    threading.Thread(target=feed, daemon=True).start()
+    sel = selectors.DefaultSelector()
+    sel.register(p.stdout, selectors.EVENT_READ)
+    buf, nl, t0, last, why = [], 0, time.time(), time.time(), None
+    while True:
+        ev = sel.select(timeout=0.5)
+        now = time.time()
+        if ev:
+            blk = os.read(p.stdout.fileno(), 1 << 20)
+            if not blk:
+                break
+            buf.append(blk)
+            if b"\n" in blk:
+                last = now
+        elif now - last > stall or (total and now - t0 > total):
+            why = "stall"
+            p.kill()
+            break
+    try:
+        p.wait(timeout=10)
+    except Exception:
+        p.kill()
+    sel.close()
+    p.stdout.close()
+    raw = b"".join(buf).decode("utf-8", "replace")
+    out = raw.split("\n")
+    out.pop()                                   # "" after the last newline, or a partial line
+    errf.seek(0)
+    err = errf.read()[-60000:].decode("utf-8", "replace")
+    errf.close()
+    if why is None and len(out) < len(lines):
+        why = "died"
+    if why == "died":
+        err = "rc=%s %s" % (p.returncode, fatal_excerpt(err))
+    return out[:len(lines)], why, err
 
 
 def classify(obs):
-    """observation line -> ok | panic | broken | died"""
+    """observation line -> ok | panic | broken"""
     if obs.startswith("PANIC") or (obs.startswith("{") and '"PANIC:' in obs):
         return "panic"
     if obs.startswith("BROKEN") or obs == "unknown-cmd":
         return "broken"
-    if obs.startswith("CRASH:") or obs == "NOT-RUN":
-        return "died"
     return "ok"
 
 
-def run_single(line, cwd, timeout=SINGLE_TIMEOUT, cmd=None):
-    """one case in its own process -> (class, observation or stderr excerpt)"""
-    try:
-        p = subprocess.run(cmd or CMD, input=line + "\n", stdout=subprocess.PIPE, stderr=subprocess.PIPE, text=True,
-                           cwd=cwd, timeout=timeout, errors="replace")
-    except subprocess.TimeoutExpired:
+def run_single(line, cwd, timeout=CONFIRM_STALL_S, big=False):
+    """one case in its own child -> (class, observation or stderr excerpt); big: 6 GB, the runtime's own stack limit"""
+    out, why, err = run_child([line], cwd, stall=timeout, total=timeout,
+                              as_bytes=(6 << 30) if big else CHILD_AS, stack_mb=None if big else STACK_MB)
+    if why is None:
+        return classify(out[0]), out[0]
+    if why == "stall":
         return "timeout", "no answer within %ds" % timeout
-    out = p.stdout.split("\n")
-    if p.returncode == 0 and out and out[0] != "":
-        c = classify(out[0])
-        return c, out[0]
-    return "fatal", "rc=%d %s" % (p.returncode, fatal_excerpt(p.stderr))
+    return "fatal", err
 
 
 def fatal_excerpt(err):
     lines = err.splitlines()
-    head = [ln for ln in lines[:12] if ln.strip()]
+    head = [ln for ln in lines if ln.strip() and not ln.startswith(("\t", " "))][:4]
     frames = []
     for i, ln in enumerate(lines):
         if "goyang/pkg/" in ln and not ln.startswith("\t") and len(frames) < 8:
@@ -297,7 +367,7 @@ def fatal_excerpt(err):
             loc = lines[i + 1].strip().split("/")[-1].split(" ")[0] if i + 1 < len(lines) else ""
             if not frames or frames[-1] != fn + "@" + loc:
                 frames.append(fn + "@" + loc)
-    return " | ".join(head[:4]) + " at=" + "<".join(frames)
+    return " | ".join(head) + " at=" + "<".join(frames)
 
 
 def signatures(cls, obs):
@@ -312,68 +382,115 @@ def signature(cls, obs):
     if m:
         s = m.group(1) + " @" + m.group(2).split("<")[0]
     elif cls == "fatal":
-        m = re.search(r"(fatal error: [^|]*|panic: [^|]*|signal: \w+)", obs)
+        m = re.search(r"(fatal error: [^|]*|panic: [^|]*|signal: \w+|out of memory)", obs)
         fr = re.search(r"at=(\S*)", obs)
         s = (m.group(1).strip() if m else obs[:80]) + " @" + (fr.group(1).split("<")[0] if fr else "")
+    elif cls == "timeout":
+        fam = re.search(r"\[[\w-]+\]$", obs)
+        s = "no answer in time" + (" " + fam.group(0) if fam else "")
     s = re.sub(r"\*yang\.\w+", "*yang.T", s)
     s = re.sub(r"0x[0-9a-f]+", "0x?", s)
     s = re.sub(r"\d+", "N", s)
     return cls + ": " + s[:160]
 
 
-def run_chunk(chunk, cwd):
-    """-> list of observations; 'UNRESOLVED' for every case the dying / hanging child did not answer"""
-    try:
-        out = lib.run_sharded(CMD, chunk, cwd=cwd, shards=1, timeout=CHUNK_TIMEOUT)
-    except subprocess.TimeoutExpired:
-        return ["UNRESOLVED-TIMEOUT"] * len(chunk)
-    except OSError:
-        return ["UNRESOLVED"] * len(chunk)
-    return ["UNRESOLVED" if (o.startswith("CRASH:") or o == "NOT-RUN") else o for o in out]
+class Control:
+    """budget, early exit and the register of failures (shared by the runner threads)"""
+    def __init__(self, tier, cwd):
+        import threading
+        self.t0 = time.time()
+        self.budget = float(os.environ.get("VERIF_C01_BUDGET_S") or BUDGET.get(tier, 150))
+        self.cwd = cwd
+        self.lock = threading.Lock()
+        self.confirm_slots = threading.Semaphore(3)       # few children at a time while confirming
+        self.stop_reason = None
+        self.fail = collections.OrderedDict()   # signature -> dict(count, witnesses=[(gen, line, cls, obs)], unconfirmed)
+        self.stats = collections.Counter()
+
+    def left(self):
+        return self.budget - (time.time() - self.t0)
+
+    def stopped(self):
+        if self.stop_reason is None and self.left() <= 0:
+            self.stop_reason = "wall-clock budget of %d s used up" % self.budget
+        return self.stop_reason is not None
+
+    def wants(self, sig):
+        with self.lock:
+            f = self.fail.get(sig)
+            return f is None or len(f["witnesses"]) < WITNESSES
+
+    def record(self, gen, line, cls, obs, confirmed):
+        sig = signature(cls, obs)
+        with self.lock:
+            f = self.fail.setdefault(sig, dict(count=0, witnesses=[], unconfirmed=0))
+            f["count"] += 1
+            if confirmed and len(f["witnesses"]) < WITNESSES:
+                f["witnesses"].append((gen, line, cls, obs))
+            elif not confirmed:
+                f["unconfirmed"] += 1
+            sigs = [x for x in self.fail.values() if x["witnesses"]]
+            nconf = sum(len(x["witnesses"]) for x in sigs)
+            total = sum(x["count"] for x in self.fail.values())
+            if self.stop_reason is None:
+                if len(sigs) >= 3:
+                    self.stop_reason = "three distinct failure signatures confirmed"
+                elif nconf >= 5:
+                    self.stop_reason = "five failures confirmed"
+                elif total >= 60:
+                    self.stop_reason = "sixty failing cases: the failure is systematic"
+
+    def suspect(self, gen, line, cls, obs):
+        """a case whose child died or stalled in a chunk: confirm it alone while its signature still needs witnesses"""
+        sig = signature(cls, obs)
+        if not self.wants(sig) or self.left() < -120:
+            self.record(gen, line, cls, obs, confirmed=False)
+            return cls, obs + " (not re-run: the signature has its witnesses)"
+        with self.confirm_slots:
+            self.stats["confirm_runs"] += 1
+            c2, o2 = run_single(line, self.cwd, timeout=CONFIRM_STALL_S)
+        if c2 in BAD:
+            self.record(gen, line, c2, o2, confirmed=True)
+            return c2, o2
+        self.stats["suspects_cleared"] += 1
+        return c2, o2
 
 
-def run_all(lines, cwd, stats):
-    """observations for all lines: (class, text).  Chunks in parallel; unanswered cases again, first in
-    halves of their chunk, finally alone (own process, own time limit, confirmed once when they time out)."""
-    n = len(lines)
+def run_cases(ctl, cases):
+    """[(generator, line)] -> [(class, observation)], class also 'not-run'.  Chunks in parallel children; when a
+    child dies or stalls, the case it was on is the suspect and the rest of the chunk goes to a fresh child."""
+    n = len(cases)
     size = max(8, min(64, n // (lib.NCPU * 6) + 1))
-    obs = [None] * n
+    obs = [("not-run", "budget")] * n
 
-    def job(idx):
-        out = run_chunk([lines[i] for i in idx], cwd)
-        return idx, out
+    def job(lo):
+        hi = min(n, lo + size)
+        i, restarts = lo, 0
+        while i < hi:
+            if ctl.stopped() or restarts > MAX_RESTARTS:
+                ctl.stats["not_run"] += hi - i
+                return
+            out, why, err = run_child([cases[k][1] for k in range(i, hi)], ctl.cwd)
+            for k, o in enumerate(out):
+                c = classify(o)
+                obs[i + k] = (c, o)
+                if c != "ok":
+                    for piece in o.split(" ALSO "):
+                        ctl.record(cases[i + k][0], cases[i + k][1], c, piece, confirmed=True)
+            i += len(out)
+            if why is None:
+                return
+            restarts += 1
+            ctl.stats["children_restarted"] += 1
+            cls, o = ("timeout", "no answer within %ds" % STALL_S) if why == "stall" else ("fatal", err)
+            if cls == "fatal" and stack_depth_shape(cases[i][1], o):
+                obs[i] = ("known", o)
+            else:
+                obs[i] = ctl.suspect(cases[i][0], cases[i][1], cls, o)
+            i += 1
 
-    todo = [list(range(i, min(n, i + size))) for i in range(0, n, size)]
-    rounds = 0
-    singles = []
     with ThreadPoolExecutor(max_workers=lib.NCPU) as ex:
-        while todo:
-            rounds += 1
-            nxt = []
-            for idx, out in ex.map(job, todo):
-                bad = [i for i, o in zip(idx, out) if o.startswith("UNRESOLVED")]
-                for i, o in zip(idx, out):
-                    if not o.startswith("UNRESOLVED"):
-                        obs[i] = (classify(o), o)
-                if not bad:
-                    continue
-                stats["chunks_split"] += 1
-                # a chunk that timed out goes to single runs at once (every further round would cost the time limit)
-                if len(bad) <= 2 or out[0] == "UNRESOLVED-TIMEOUT" or len(singles) + len(bad) > 4000:
-                    singles += bad
-                else:
-                    mid = len(bad) // 2
-                    nxt += [bad[:mid], bad[mid:]]
-            todo = nxt
-        # single cases, each in its own child
-        res = list(ex.map(lambda i: run_single(lines[i], cwd), singles))
-    for i, (c, o) in zip(singles, res):
-        if c == "timeout":
-            stats["timeouts_rechecked"] += 1
-            c, o = run_single(lines[i], cwd, timeout=CONFIRM_TIMEOUT)
-        obs[i] = (c, o)
-    stats["single_runs"] += len(singles)
-    stats["rounds"] = max(stats["rounds"], rounds)
+        list(ex.map(job, range(0, n, size)))
     return obs
 
 
@@ -1793,25 +1910,38 @@ def blowup_cases(tier, seed):
 BLOWUP_TIMEOUT = 20        # seconds per case alone; the clean tree needs well under 1/20 of it (see evidence)
 
 
-def run_blowup(res, cases, cwd, outcomes, bad_by_sig, timing):
-    def one(c, bound=BLOWUP_TIMEOUT):
+def run_blowup(ctl, cases, outcomes, timing):
+    """every case alone under BLOWUP_TIMEOUT; one that runs out of time is run again with three times the bound"""
+    def one(c):
+        gen, line = c
+        if ctl.stopped():
+            ctl.stats["not_run"] += 1
+            return "not-run", "budget", 0.0
+        fam = gen.split(":")[1]
         t0 = time.time()
-        cls, o = run_single(c[1], cwd, timeout=bound)
-        return cls, o, time.time() - t0
+        cls, o = run_single(line, ctl.cwd, timeout=BLOWUP_TIMEOUT)
+        dt = time.time() - t0
+        if cls == "timeout":
+            o = "no answer within %ds [%s]" % (BLOWUP_TIMEOUT, fam)
+            if ctl.wants(signature(cls, o)):
+                with ctl.confirm_slots:
+                    ctl.stats["confirm_runs"] += 1
+                    cls, o = run_single(line, ctl.cwd, timeout=3 * BLOWUP_TIMEOUT)
+                if cls == "timeout":
+                    o = "no answer within %ds and again within %ds [%s]" % (BLOWUP_TIMEOUT, 3 * BLOWUP_TIMEOUT, fam)
+                    ctl.record(gen, line, cls, o, confirmed=True)
+            else:
+                ctl.record(gen, line, cls, o, confirmed=False)
+        elif cls != "ok":
+            for piece in o.split(" ALSO "):
+                ctl.record(gen, line, cls, piece, confirmed=True)
+        return cls, o, dt
     with ThreadPoolExecutor(max_workers=max(2, lib.NCPU // 2)) as ex:
         rs = list(ex.map(one, cases))
-    # a case that ran out of time is run once more with three times the bound and little else going on
-    slow = [i for i, r in enumerate(rs) if r[0] == "timeout"]
-    with ThreadPoolExecutor(max_workers=4) as ex:
-        again = list(ex.map(lambda i: one(cases[i], 3 * BLOWUP_TIMEOUT), slow))
-    for i, r in zip(slow, again):
-        rs[i] = r if r[0] != "timeout" else ("timeout", "no answer within %ds (again: %ds)" % (BLOWUP_TIMEOUT, 3 * BLOWUP_TIMEOUT), r[2])
     for (gen, line), (cls, o, dt) in zip(cases, rs):
         timing[gen] = round(max(timing.get(gen, 0), dt), 3)
         outcomes[cls] += 1
         outcomes["blowup:" + cls] += 1
-        if cls != "ok":
-            bad_by_sig.setdefault(signature(cls, o) + (" [%s]" % gen.split(":")[1] if cls == "timeout" else ""), []).append((gen, line, cls, o))
 
 
 # ------------------------------------------------------------------ case streams
@@ -1884,9 +2014,6 @@ def plan(tier):
 
 # ------------------------------------------------------------------ minimisation
 
-BAD = ("panic", "fatal", "timeout", "broken")
-
-
 def texts_of(line):
     c = decode_case(line)
     if "texts" in c:
@@ -1894,12 +2021,13 @@ def texts_of(line):
     return [("(text)", c["text"].decode("utf-8", "replace"))]
 
 
-def minimise(line, sig, cwd, budget_s=150, max_runs=600):
+def minimise(line, sig, cwd, budget_s=120, max_runs=600):
     t0 = time.time()
-    if sig.startswith("timeout"):
-        budget_s = 60              # every probe of a hang costs its time limit
+    hang = sig.startswith("timeout")
+    if hang:
+        budget_s = min(budget_s, 75)      # every probe that still hangs costs its time limit
     runs = [0]
-    tmo = 8 if sig.startswith("timeout") else SINGLE_TIMEOUT
+    tmo = 3 if hang else 20              # a probe that gives no answer within 3 s counts as "still hangs" ...
 
     def bad(l):
         if time.time() - t0 > budget_s or runs[0] >= max_runs:
@@ -2003,7 +2131,7 @@ def minimise(line, sig, cwd, budget_s=150, max_runs=600):
             case["text"] = b
         shrink_text(get, put)
     out = encode_case(case)
-    c, o = run_single(out, cwd, timeout=max(tmo, SINGLE_TIMEOUT))
+    c, o = run_single(out, cwd, timeout=STALL_S if hang else 20)      # ... the result is checked with the real bound
     if c in BAD and (sig in signatures(c, o) or (c == "timeout" and sig.startswith("timeout"))):
         o = ([x for x in o.split(" ALSO ") if signature(c, x) == sig] + [o])[0]
         return out, c, o, runs[0]
@@ -2035,20 +2163,21 @@ def stack_depth_shape(line, obs):
 
 # ------------------------------------------------------------------ entry points
 
-def report(res, gen, line, cls, obs, cwd, do_min):
+def report(res, gen, line, cls, obs, cwd, min_budget, count, confirmed):
     sig = signature(cls, obs)
-    lib.log("C01 failing case found (%s), %s ..." % (sig, "minimising" if do_min else "not minimised"))
+    lib.log("C01 failing case found (%s; %d case(s)), %s ..." % (sig, count, "minimising" if min_budget > 5 else "not minimised"))
     orig = line
     runs = 0
-    if do_min:
-        mline, c2, o2, runs = minimise(line, sig, cwd)
+    if min_budget > 5:
+        mline, c2, o2, runs = minimise(line, sig, cwd, budget_s=min_budget)
         if c2:
             line, cls, obs = mline, c2, o2
     texts = texts_of(line)
     c = decode_case(line)
-    what = "%s on %s case (generator %s): %s" % (cls.upper(), c["cmd"], gen, obs[:600])
+    what = "%s on %s case (generator %s, %d failing case(s) with this signature%s): %s" % (
+        cls.upper(), c["cmd"], gen, count, "" if confirmed else ", not confirmed in a run of its own", obs[:600])
     rep = dict(kind="crash", case=line, observation=obs[:4000], outcome=cls, signature=sig, generator=gen,
-               minimised=bool(do_min and line != orig), minimiser_runs=runs,
+               minimised=bool(line != orig), minimiser_runs=runs, confirmed=confirmed, cases_with_this_signature=count,
                opts=c.get("opts"), ops=",".join(c["ops"]) if "ops" in c else None,
                texts=[[n, t[:20000]] for n, t in texts])
     if len(orig) < 200000 and orig != line:
@@ -2062,23 +2191,26 @@ def report(res, gen, line, cls, obs, cwd, do_min):
 def run(res, tier, seed, proof):
     t0 = time.time()
     cwd = tempfile.mkdtemp(prefix="c01-empty-")
-    stats = collections.Counter()
+    ctl = Control(tier, cwd)
     dist = collections.Counter()
     outcomes = collections.Counter()
     per_gen = collections.Counter()
-    bad_by_sig = collections.OrderedDict()
     samples = []
     timing = {}
     evaluations = nontrivial = 0
     try:
         def consume(cases):
             nonlocal evaluations, nontrivial
-            obs = run_all([l for _, l in cases], cwd, stats)
+            obs = run_cases(ctl, cases)
             for (gen, line), (cls, o) in zip(cases, obs):
+                outcomes[cls] += 1
+                if cls == "not-run":
+                    continue
                 evaluations += 1
                 per_gen[gen.split(":")[0]] += 1
-                outcomes[cls] += 1
-                if cls == "ok":
+                if cls == "known":
+                    res.known("parser.stack-depth", "a text with a million or more nested braces: %s" % o[:160])
+                elif cls == "ok":
                     if o.startswith("ok "):
                         if re.search(r"P\d", o) and "Lo" in o:
                             nontrivial += 1
@@ -2092,22 +2224,15 @@ def run(res, tier, seed, proof):
                         outcomes["rejected-text"] += 1
                     if len(samples) < 4 and evaluations % 997 == 5:
                         samples.append(dict(generator=gen, case=line[:600], observation=o[:300]))
-                    continue
-                if cls == "fatal" and stack_depth_shape(line, o):
-                    res.known("parser.stack-depth", "a text with a million or more nested braces: %s" % o[:160])
-                    outcomes["known-stack-depth"] += 1
-                    continue
-                for piece in o.split(" ALSO "):
-                    bad_by_sig.setdefault(signature(cls, piece), []).append((gen, line, cls, piece))
 
         corpus = load_corpus()
         dist["corpus-cases"] = len(corpus)
         consume(corpus)
         blow = blowup_cases(tier, seed)
         dist["blowup-cases"] = len(blow)
-        run_blowup(res, blow, cwd, outcomes, bad_by_sig, timing)
-        evaluations += len(blow)
-        per_gen["blowup"] += len(blow)
+        run_blowup(ctl, blow, outcomes, timing)
+        evaluations += len(blow) - outcomes["blowup:not-run"]
+        per_gen["blowup"] += len(blow) - outcomes["blowup:not-run"]
         work = []
         k = 0
         for chunks, ns, nm, nn, npth in plan(tier):
@@ -2116,27 +2241,29 @@ def run(res, tier, seed, proof):
                 k += 1
         import multiprocessing
         batch = 64 if tier != "quick" else 20
+        done_chunks = 0
         with multiprocessing.Pool(min(lib.NCPU, 16)) as pool:
             pending = None
-            for b in range(0, len(work), batch):
-                nxt = pool.map_async(gen_chunk, work[b:b + batch])
+            for b in list(range(0, len(work), batch)) + [None]:
+                if ctl.stopped():
+                    break
+                nxt = pool.map_async(gen_chunk, work[b:b + batch]) if b is not None else None
                 if pending is not None:
                     cs = []
                     for cases, d in pending.get():
                         cs += cases
                         dist.update(d)
+                        done_chunks += 1
                     consume(cs)
                 pending = nxt
-            cs = []
-            for cases, d in pending.get():
-                cs += cases
-                dist.update(d)
-            consume(cs)
-        if tier != "quick":
-            # D13: one input of the listed shape, alone, under the memory limit
+            pool.terminate()
+        dist["chunks-generated"] = done_chunks
+        dist["chunks-planned"] = len(work)
+        if tier != "quick" and not ctl.stopped():
+            # D13: one input of the listed shape, alone, with 6 GB and the runtime's own stack limit
             n = 5000000
             line = "parse " + hx(b"a{" * n)
-            cls, o = run_single(line, cwd, timeout=600, cmd=CMD_DEFAULT_STACK)
+            cls, o = run_single(line, cwd, timeout=600, big=True)
             evaluations += 1
             outcomes["d13:" + cls] += 1
             if cls == "fatal" and stack_depth_shape(line, o):
@@ -2144,25 +2271,37 @@ def run(res, tier, seed, proof):
             elif cls != "ok":
                 res.violation("5*10^6 nested braces did not end in the listed stack exhaustion: %s %s" % (cls, o[:300]),
                               dict(kind="crash", case="parse <hex of 'a{' * %d>" % n, outcome=cls, observation=o[:2000]))
-        # report: one violation per signature, the first three minimised
-        for i, (sig, lst) in enumerate(bad_by_sig.items()):
-            lst.sort(key=lambda x: len(x[1]))
-            gen, line, cls, o = lst[0]
+        # report: one violation per signature (confirmed ones first), the first three minimised within 240 s in all
+        order = sorted(ctl.fail.items(), key=lambda kv: (not kv[1]["witnesses"],))
+        tmin = time.time()
+        for i, (sig, f) in enumerate(order):
             outcomes["distinct-failure-signatures"] += 1
-            if i < 5:
-                report(res, gen, line, cls, o, cwd, do_min=(i < 3))
+            if i >= 5:
+                continue
+            if f["witnesses"]:
+                gen, line, cls, o = min(f["witnesses"], key=lambda w: len(w[1]))
+                left = 240 - (time.time() - tmin)
+                report(res, gen, line, cls, o, cwd, min(120, left) if i < 3 else 0, f["count"], True)
+            else:
+                res.violation("%d case(s) failed with signature %s but none was confirmed in a run of its own (budget)" % (f["count"], sig),
+                              dict(kind="crash", signature=sig, confirmed=False), no_input=False)
     finally:
         shutil.rmtree(cwd, ignore_errors=True)
+    stats = dict(ctl.stats)
+    cut = ctl.stop_reason
     table_fields = sum(1 for k in dist if k.startswith("table-field:"))
     cov = dict(
         evaluations=evaluations, distinct_nontrivial=nontrivial,
-        rule="every case runs in a child process of the Go harness (ulimit -v %d kB, Go stack limit 256 MB, empty working directory, chunk "
-             "timeout %ds, single-case timeout %ds, confirmed with %ds); outcome ok | panic | fatal | timeout | broken; "
-             "non-trivial = at least one text was accepted and Process ran (hist), or a process dump was produced"
-             % (MEM_KB, CHUNK_TIMEOUT, SINGLE_TIMEOUT, CONFIRM_TIMEOUT),
+        rule="every case runs in a child process of the Go harness (address space %.1f GB, Go stack limit %d MB, empty working "
+             "directory); a child that answers no case for %d s is killed, the case it was on is run again alone with %d s, the "
+             "rest of its chunk goes to a fresh child (at most %d restarts per chunk); outcome ok | panic | fatal | timeout | "
+             "broken | not-run; non-trivial = at least one text was accepted and Process ran (hist), or a process dump was produced"
+             % (CHILD_AS / 2.0 ** 30, STACK_MB, STALL_S, CONFIRM_STALL_S, MAX_RESTARTS),
         exhaustive=False, outcomes=dict(outcomes), cases_per_generator=dict(per_gen),
-        failing_signatures={s: len(l) for s, l in bad_by_sig.items()},
-        runner=dict(stats), table_fields_exercised=table_fields,
+        budget=dict(seconds=ctl.budget, cut_short=cut is not None, reason=cut, cases_not_run=stats.get("not_run", 0),
+                    note="the run was CUT SHORT: not every planned case was executed" if cut else "the whole plan was executed"),
+        failing_signatures={s: dict(cases=f["count"], confirmed_witnesses=len(f["witnesses"])) for s, f in ctl.fail.items()},
+        runner=stats, table_fields_exercised=table_fields,
         blowup_seconds=dict(bound=BLOWUP_TIMEOUT, slowest_case=max(timing.values()) if timing else 0, per_case=timing),
         distribution={k: v for k, v in sorted(dist.items()) if not k.startswith("table-field:")},
         samples=samples, generation_and_run_s=round(time.time() - t0, 1))
@@ -2189,7 +2328,7 @@ def replay(rep, res):
         c = decode_case(line)
         if "ops" in c:
             print("command: %s  options: %s  operations: %s" % (c["cmd"], c["opts"], ",".join(c["ops"])))
-        cls, o = run_single(line, cwd, timeout=CONFIRM_TIMEOUT)
+        cls, o = run_single(line, cwd, timeout=CONFIRM_STALL_S)
         print("outcome:", cls)
         print("observation:", o[:3000])
         return 1 if cls in BAD else 0
